@@ -38,7 +38,55 @@ def ev(n, env, locs):
         return ev(kids(n)[0], env, locs) or ev(kids(n)[1], env, locs)
     if k == "DeclRefExpr" and uname(n) in locs:
         return ev(locs[uname(n)], env, locs)
+    if k == "CXXMemberCallExpr" and "__virtual__" in locs:
+        v = locs["__virtual__"](n, env)
+        if v is not None:
+            return v
     raise AnalysisError("condition form not recognised: " + text(n))
+
+
+def virtual_resolver(tu, f):
+    """a predicate asked of the freshly created algorithm object (`global_grid_algo->IsStochastic()`): the class constructed for
+    the current option is read off the `new` expressions of the export, the method is looked up in that class and its bases, and
+    must consist of a single `return true / false`"""
+    created = {}
+    for n in walk(f.body):
+        if n.get("kind") == "IfStmt":
+            p = cxfe.raw_kids(n)
+            lits = [strip(call_parts(x)[2][1], casts=True).get("value", "").strip('"') for x in walk(p[0])
+                    if x.get("kind") == "CallExpr" and (call_parts(x) or ("",))[0] == "CompareStr" and
+                    name_of(strip(call_parts(x)[2][0], casts=True)) == "option"]
+            news = [x.get("type", {}).get("qualType", "").replace("*", "").strip() for x in walk(p[1]) if x.get("kind") == "CXXNewExpr"]
+            if len(lits) == 1 and len(news) == 1:
+                created[lits[0]] = news[0]
+
+    def lookup(cls, meth, depth=0):
+        c = tu.classes.get(cls)
+        if c is None or depth > 4:
+            return None
+        if meth in c.methods and c.methods[meth].body is not None:
+            return c.methods[meth]
+        for b in c.bases:
+            m = lookup(b, meth, depth + 1)
+            if m is not None:
+                return m
+        return None
+
+    def resolve(n, env):
+        cp = call_parts(n)
+        cls = created.get(env.get("option"))
+        if not cp or cls is None:
+            return None
+        m = lookup(cls, cp[0])
+        if m is None:
+            return None
+        st = [x for x in kids(m.body)]
+        if len(st) == 1 and st[0].get("kind") == "ReturnStmt" and kids(st[0]):
+            v = strip(kids(st[0])[0], casts=True)
+            if v.get("kind") == "CXXBoolLiteralExpr":
+                return bool(v.get("value"))
+        return None
+    return resolve
 
 
 def classify_branch(b):
@@ -86,6 +134,7 @@ def rule_dispatch(ctx, tu):
         chain = mode_chain(ctx, R, f)
         locs = {uname(x): kids(x)[-1] for x in walk(f.body)
                 if x.get("kind") == "VarDecl" and x.get("type", {}).get("qualType") == "bool" and kids(x)}
+        locs["__virtual__"] = virtual_resolver(tu, f)
         for (mode, opt), want in sorted(EXPECT.items()):
             env = {"init_state_processing": mode, "option": opt}
             taken = None
